@@ -37,7 +37,10 @@ LEVEL_TEXT = ("Machine-checked Coq theorems over an executable Gallina model of 
               "eager and lazy, the rows shown are the first and last `limit` (all when n <= 2*limit) with exactly one ellipsis line otherwise and every "
               "label is the row's true 1-based position; a cell that is an instance of a proper SUBCLASS of a listed kind (masked array / matrix / recarray / "
               "user ndarray subclass; int, float, str, bytes, Decimal, date, datetime, timedelta, dict, list, tuple subclasses) is formatted, "
-              "and the whole frame rendered by all three renderers, exactly as the base-class instance of equal content is; for every enumerated cell kind the formatter, the table and str() return Ok (no Raise reachable; bytes of any content, timedelta64 of any unit and NaT included); for "
+              "and the whole frame rendered by all three renderers, exactly as the base-class instance of equal content is; columns are positional: "
+              "column j is min(max_column_width, max(its own name, its own type text, its own shown non-null cells, 4)) wide, so nothing but "
+              "max_column_width cuts a cell, a number that fits is printed with every digit, and renaming the columns (all to ONE name included) "
+              "changes the header line only; for every enumerated cell kind the formatter, the table and str() return Ok (no Raise reachable; bytes of any content, timedelta64 of any unit and NaT included); for "
               "printable-ASCII names and cells every box line handed to colorizer has the same printed width min(table width, display width). The model "
               "is tied to the code by rendering real DataFrames (display / ascii_table head-only / markdown / str, eager and generator-backed, every "
               "listed cell kind) and evaluating the model on the same frames inside Coq: full output compared by length + 61-bit digest, labels, "
@@ -62,7 +65,9 @@ RULE = ("a deterministic cell-class table (every listed kind, every builtin / li
         "scalars and arrays of every dtype, timedelta64, subclass instances of all of these incl. masked arrays / matrix / recarray), text also "
         "non-NFC and with special case folding, list-of-names and RelationSchema schemas, limits 1..8, colour on/off, type row on/off, max column "
         "width 1..40 and display width 1..200 (narrower and wider than the table) or given as a bool, integer arguments also as int-subclass "
-        "instances, head-only and top-and-tail, eager and generator-backed; "
+        "instances, head-only and top-and-tail, eager and generator-backed; column names repeated (30 % of random frames with >= 2 columns) "
+        "and a deterministic table of repeated / look-alike column names (later same-named column wider, mirrored, max_column_width at "
+        "widest cell -1 / = / +1, names list and RelationSchema); "
         "each rendered by display()/ascii_table, markdown() and str(); a case is non-trivial when the frame has at least one row and one "
         "column; distinct by canonical JSON")
 TRUSTED = [
@@ -640,7 +645,7 @@ def known(case, obs):
     return None
 
 
-def _check_table(case, text, limit, tt, dw, show_types, what):
+def _check_table(case, text, limit, tt, dw, show_types, what, mcw=None):
     n = len(case["rows"])
     p = parse_table(text)
     if p is None:
@@ -692,7 +697,105 @@ def _check_table(case, text, limit, tt, dw, show_types, what):
                         nm = c["type"] or "0"
                         if got and not (got.startswith(nm) or nm.startswith(got)):
                             return f"{what}: type row cell {cellt!r} does not show the column type {nm}"
+        # round 7 - "shows the right rows": every shown cell of a plain kind is the row's own value, cut by nothing but
+        # max_column_width - a column is as wide as its own widest shown cell (up to max_column_width) whatever the
+        # other columns hold or are called
+        if mcw is not None and ws and ws[0] < dw:
+            why = _check_cells(case, [ln for _, _, ln in rows], [w - 1 for w in want], mcw, what)
+            if why:
+                return why
     return None
+
+
+_PLAIN = ("none", "bool", "int", "float", "dec", "str")
+
+
+def _plain_text(spec):
+    """str() of a cell of a plain kind as the table must show it ("null" for None), else None (kind not judged here)."""
+    if spec[0] not in _PLAIN:
+        return None
+    v = build(spec)
+    if v is None:
+        return "null"
+    if isinstance(v, float) and v != v:
+        return None
+    s = str(v)
+    return s if _is_ascii(s) else None
+
+
+def _check_cells(case, lines, idx, mcw, what):
+    ncols = len(case["names"])
+    if ncols == 0:
+        return None
+    for ln, i in zip(lines, idx):
+        parts = ln.split("\u2502")
+        if len(parts) != ncols + 3 or parts[-1] != "":
+            continue            # (cannot happen for printable-ASCII content on an uncut line; the width clauses judge it)
+        for j, (cellt, spec) in enumerate(zip(parts[2:-1], case["rows"][i])):
+            s = _plain_text(spec)
+            if s is None or len(cellt) < 2:
+                continue
+            shown, w = cellt[1:-1], len(cellt) - 2
+            if w < min(mcw, len(s)):
+                return (f"{what}: row {i + 1}, column {j + 1} ({case['names'][j]!r}) holds {s!r} ({len(s)} characters, max_column_width {mcw}) "
+                        f"but the column is only {w} wide and shows {shown!r}: {ln!r}")
+            if shown not in (s.rjust(w)[:w], s.ljust(w)[:w]):
+                return f"{what}: row {i + 1}, column {j + 1} ({case['names'][j]!r}) holds {s!r} but the table shows {shown!r}: {ln!r}"
+    return None
+
+
+def _check_markdown(case, text):
+    """The Markdown rendering shows the first 'limit' rows, each plain cell being the row's own value cut by nothing but
+    max_column_width.  Judged only when no name / cell text contains a vertical bar (the cells are then unambiguous)."""
+    names, n, lim, mcw = case["names"], len(case["rows"]), case["md"]["limit"], case["md"]["mcw"]
+    if not names or not ascii_only(case):
+        return None
+    shown = list(range(min(n, lim)))
+    texts = [[_plain_text(c) for c in case["rows"][i]] for i in shown]
+    if any("|" in nm for nm in names) or any(t is not None and "|" in t for r in texts for t in r):
+        return None
+    for i in shown:
+        for c in case["rows"][i]:
+            if _plain_text(c) is None:
+                t = str(build(c))
+                if "|" in t or not _is_ascii(t):      # (str() of an array holds line breaks)
+                    return None
+    lines = text.split("\n")
+    if len(lines) != 2 + len(shown):
+        return f"markdown: header, rule and {len(shown)} row lines expected (n={n}, limit={lim}), {len(lines)} lines printed"
+    for k, i in enumerate(shown):
+        ln = lines[2 + k]
+        parts = ln.split(" | ")
+        if len(parts) != len(names) + 1 or not parts[-1].endswith(" |"):
+            continue
+        parts[-1] = parts[-1][:-2]
+        if parts[0].strip("| ") != str(i + 1):
+            return f"markdown: row line {k + 1} labelled {parts[0].strip('| ')!r} where the true 1-based position is {i + 1}: {ln!r}"
+        for j, (cellt, s) in enumerate(zip(parts[1:], texts[k])):
+            if s is None:
+                continue
+            w = len(cellt)
+            if w < min(mcw, len(s)):
+                return (f"markdown: row {i + 1}, column {j + 1} ({names[j]!r}) holds {s!r} ({len(s)} characters, max_column_width {mcw}) "
+                        f"but the column is only {w} wide and shows {cellt!r}: {ln!r}")
+            alts = (s, "None") if s == "null" else (s,)        # Markdown prints a null as str(None)
+            if all(cellt not in (a.rjust(w)[:w], a.ljust(w)[:w]) for a in alts):
+                return f"markdown: row {i + 1}, column {j + 1} ({names[j]!r}) holds {s!r} but the table shows {cellt!r}: {ln!r}"
+    return None
+
+
+_STR_MCW = None
+
+
+def _str_mcw():
+    """max_column_width in force under str(): ascii_table's default (read from the live signature)."""
+    global _STR_MCW
+    if _STR_MCW is None:
+        from orso.display import ascii_table
+
+        d = inspect.signature(ascii_table).parameters["max_column_width"].default
+        _STR_MCW = d if isinstance(d, int) and d >= 1 else 30
+    return _STR_MCW
 
 
 def oracle(case, obs):
@@ -700,14 +803,17 @@ def oracle(case, obs):
     for what in ("display", "markdown", "str"):
         if "exc" in obs[what]:
             return f"{what} must complete without error, raised {obs[what]['exc']}: {obs[what].get('msg', '')}"
-    why = _check_table(case, obs["display"]["text"], cfg["limit"], cfg["tt"], eff_dw(case), cfg["show_types"], "display")
+    why = _check_table(case, obs["display"]["text"], cfg["limit"], cfg["tt"], eff_dw(case), cfg["show_types"], "display", cfg["mcw"])
+    if why:
+        return why
+    why = _check_markdown(case, obs["markdown"]["text"])
     if why:
         return why
     st = obs["str"]["text"]
     if "\n" not in st:
         return "str: table and footer expected"
     table, _footer = st.rsplit("\n", 1)
-    return _check_table(case, table, _str_limit(), True, case["cols"], False, "str")
+    return _check_table(case, table, _str_limit(), True, case["cols"], False, "str", _str_mcw())
 
 
 # ---------------------------------------------------------------------------------------
@@ -797,6 +903,8 @@ def classify(case, obs):
     yield "rows=0" if n == 0 else ("n<=limit" if n <= cfg["limit"] else ("n<=2*limit" if n <= 2 * cfg["limit"] else "n>2*limit"))
     yield "cols=%d" % len(case["names"])
     yield "ascii" if ascii_only(case) else "non-ascii"
+    if len(set(case["names"])) < len(case["names"]):
+        yield "repeated-column-name"
     if "text" in obs["display"]:
         w = max(len(ANSI.sub("", ln)) for ln in obs["display"]["text"].split("\n"))
         yield "cut-by-display-width" if w >= eff_dw(case) else "fits-display-width"
@@ -1090,6 +1198,10 @@ def _rand_case(rng, mode=None, n=None, limit=None, lazy=None, tt=None):
     for j in range(ncols):
         nm = rng.choice(["a", "id", "name", "a_rather_long_column_name_for_a_table", "", " x "]) if rng.random() < 0.7 else _rand_text(rng, mode)
         names.append(nm)
+    if ncols > 1 and rng.random() < 0.3:      # round 7: a column name occurs more than once (columns are positional)
+        for j in range(1, ncols):
+            if rng.random() < 0.6:
+                names[j] = names[rng.randrange(j)]
     dw = rng.choice([1, 2, 3, 5, 8, 13, 20, 30, 50, 80, 120, 200, rng.randint(1, 200)])
     if rng.random() < 0.08:      # round 4: display_width given as a bool (terminal width / no limit)
         dw = rng.random() < 0.6
@@ -1251,6 +1363,48 @@ def kind_cases(tier):
                    "md": {"limit": 5, "mcw": 30}, "cols": [80, 30, 200][k % 3]}
 
 
+def name_cases(tier):
+    """Round 7: columns are positional - frames whose column names repeat (join results, select(['a', 'a'])-like shapes) or
+    merely look alike, the LATER same-named column holding the wider values (and the other way round), every plain kind in
+    the wide column, name list and RelationSchema, eager and lazy, head-only and top-and-tail, types on and off, and
+    max_column_width at widest-cell - 1 / widest cell / + 1.  Deterministic; all go through Coq."""
+    f = float(1234.5678).hex()
+    shapes = [
+        (["id", "id", "km"], [[["int", "1"], ["str", "Ganymede"], ["int", "5262"]], [["int", "2"], ["str", "Callisto"], ["int", "4821"]],
+                              [["int", "3"], ["str", "Io"], ["int", "3643"]]]),
+        (["v", "v", "v"], [[["int", "1"], ["int", "1234567"], ["str", "abcdefghijkl"]]]),
+        (["a", "b", "a"], [[["str", "x"], ["int", "0"], ["dec", "12345.678901"]], [["none"], ["none"], ["float", f]]]),
+        (["n", "n"], [[["str", "a long text first"], ["int", "7"]], [["str", "b"], ["bool", True]]]),
+        (["k", "k", "k", "k"], [[["bool", False], ["int", str(-2**63)], ["none"], ["str", "wide enough to matter"]],
+                                [["none"], ["none"], ["float", f], ["none"]]]),
+        (["", "", ""], [[["int", "1"], ["int", "22222222"], ["int", "333333333333"]]]),
+        (["a", "A", "a ", " a"], [[["int", "1"], ["int", "123456"], ["str", "seven77"], ["str", "eight888"]]]),
+        (["name", "name"], [[["int", str(1000 + i)], ["str", "row number %d" % i]] for i in range(7)]),
+        (["t", "u", "t", "u"], [[["str", "ab"], ["str", "cd"], ["list", [["int", "1"], ["int", "2"]]], ["dict", [[["str", "key"], ["int", "1"]]]]]]),
+    ]
+    k = 0
+    for names, rows in shapes:
+        widest = max(len(_plain_text(c) or "") for r in rows for c in r)
+        for variant in range(4 if tier == "quick" else 12):
+            lazy = bool((variant + k) % 2)
+            rel = (variant // 2 + k) % 2 == 1
+            cfg = {"limit": [5, 2, 1, 3][(variant + k) % 4], "dw": [200, False, 120, True][(variant + k) % 4],
+                   "mcw": [32, widest - 1, widest, widest + 1][(variant + 2 * k) % 4], "colorize": bool((variant // 2 + k) % 2),
+                   "tt": (variant + k) % 3 != 0, "show_types": bool((variant + k // 2) % 2)}
+            schema = None
+            if rel:
+                schema = [{"type": ["INTEGER", "VARCHAR", None, "DOUBLE"][(j + k) % 4], "element_type": None, "precision": None, "scale": None}
+                          for j in range(len(names))]
+            yield {"names": list(names), "schema": schema, "rows": rows, "lazy": lazy, "idcol": names == ["name", "name"], "cfg": cfg,
+                   "md": {"limit": [5, 1, 40][(variant + k) % 3], "mcw": [30, widest, 3][(variant + k) % 3]}, "cols": 200}
+            # the mirror frame: columns (and names) in reverse order - the wide column now comes first
+            if variant % 2 == 0:
+                yield {"names": list(reversed(names)), "schema": None if schema is None else list(reversed(schema)),
+                       "rows": [list(reversed(r)) for r in rows], "lazy": not lazy, "idcol": False, "cfg": dict(cfg),
+                       "md": {"limit": 5, "mcw": 30}, "cols": 200}
+            k += 1
+
+
 def exhaustive(tier):
     top = 20 if tier == "quick" else 30
     lims = range(1, 5) if tier == "quick" else range(1, 9)
@@ -1262,10 +1416,12 @@ def exhaustive(tier):
                     for tt in (False, True):
                         yield _ints_case(n, limit, lazy, tt)
         yield from kind_cases(tier)
+        yield from name_cases(tier)
 
     return it(), (f"every (rows 0..{top}) x (limit {lims[0]}..{lims[-1]}) x eager/lazy x head-only/top-and-tail on a two-column id frame; "
                   f"the cell-class table ({len(kind_table())} specs: every listed kind, every builtin-subclass instance, every ndarray subclass x "
-                  "dtype x shape, every ndarray dtype, every NumPy scalar kind) one cell per frame eager and lazy and six per frame")
+                  "dtype x shape, every ndarray dtype, every NumPy scalar kind) one cell per frame eager and lazy and six per frame; "
+                  "the repeated / look-alike column-name table (9 shapes x settings, mirrored)")
 
 
 def generate(rng, tier):
@@ -1284,7 +1440,10 @@ def search(rng):
             yield _ints_case(rng.randint(95, 130), rng.randint(1, 8), rng.random() < 0.5, True)
         elif r < 0.15:
             yield _ints_case(rng.randint(95, 130), rng.randint(95, 130), True, False)
-        elif r < 0.4:
+        elif r < 0.25:
+            cs = list(name_cases("thorough"))
+            yield cs[rng.randrange(len(cs))]
+        elif r < 0.45:
             yield _ints_case(rng.randint(0, 30), rng.randint(1, 8), rng.random() < 0.5, rng.random() < 0.8,
                              colorize=rng.random() < 0.5, show_types=rng.random() < 0.5)
         else:
